@@ -269,6 +269,8 @@ Len = _cls("Len", ["e", "ty"])
 BlockE = _cls("BlockE", ["label", "stmts", "tail", "ty"])
 FnRef = _cls("FnRef", ["name", "ty"])
 LambdaE = _cls("LambdaE", ["params", "ret", "body", "tail", "ty"])  # params [(name, ty)]
+Comptime = _cls("Comptime", ["e", "ty"])              # comptime { e }
+Raw = _cls("Raw", ["src", "ty"])                      # verbatim source (used by specialised checks)
 
 # statements
 
@@ -421,6 +423,10 @@ def esrc(e):
         lab = f"`{e.label}: " if e.label else ""
         body = " ".join(ssrc(s, 0).strip() for s in e.stmts)
         return f"{lab}{{ {body} {esrc(e.tail) if e.tail is not None else ''} }}"
+    if k == "Comptime":
+        return f"comptime {{ {esrc(e.e)} }}"
+    if k == "Raw":
+        return e.src
     if k == "LambdaE":
         ps = ", ".join(f"{n}: {t.src()}" for n, t in e.params)
         body = " ".join(ssrc(s, 0).strip() for s in e.body)
